@@ -80,8 +80,8 @@ CLAIMS['C26'] = dict(engine='pyvc (E1: AST -> VCs -> z3) + rtc (E3)', category='
          'dx is the vacancy displacement; the pruned omega1 list is exactly the classes touching the thermodynamic range.',
     note='Catalogue crystals, Nthermo 1..2.')
 
-CLAIMS['C31'] = dict(engine='rtc (E3)', category='exploration',
-    technique='run-time postcondition of makeclusters against brute-force enumeration; closure contracts on TS/vacancy clusters; Cluster identity laws (structural proof in C36)',
+CLAIMS['C31'] = dict(engine='symbolic execution of the real Cluster class on sympy lattice vectors (E4) + rtc (E3)', category='exploration',
+    technique='identity of clusters: the real Cluster.__init__ / __eq__ / __hash__ run on sites with symbolic integer lattice vectors, invariance under a common symbolic translation and under every reordering of the non-special sites and the stored normal form decided by structural equality, for every label pattern of up to 4 sites and every kind of cluster (level S, all lattice vectors); run-time postcondition of makeclusters against brute-force enumeration; closure contracts on TS/vacancy clusters; Cluster identity laws (structural proof in C36)',
     text='Bounded: catalogue crystals, first shells, order <= 3, with and without excluded species: generated cluster sets are exactly the site sets within the cutoff, each once, grouped in complete disjoint orbits; '
          'TS and vacancy cluster sets are closed under symmetry (and reversal); equality/hash are invariant under translation and reordering.',
     note='Catalogue, cutoffs and order are the bound.')
